@@ -3,7 +3,7 @@ import KadDHT.Model.Keyspace
 import KadDHT.Proofs.Bits
 namespace KadDHT
 namespace Trie
-variable {α : Type}
+variable {α β : Type}
 
 /-- keys in left-to-right order (independent of any `order` key) -/
 def keysL : Trie α → List Key
@@ -218,5 +218,286 @@ theorem mem_pruneAt (k path : Key) (t : Trie α) (hwf : WF path t) (hpk : isPre 
             · exact Or.inl h
             · exact Or.inr ⟨h, h2⟩
 
+/-! ### SubtractTrie -/
+
+theorem WF.diverge {path k : Key} {b : Bool} {t : Trie α} (h : WF (path ++ [!b]) t)
+    (hk : isPre (path ++ [b]) k = true) {y : Key} (hy : y ∈ keysL t) :
+    isPre k y = false ∧ isPre y k = false := by
+  have h2 := h.mem_isPre hy
+  refine ⟨not_isPre_of_diverge hk h2, ?_⟩
+  have := not_isPre_of_diverge (x := !b) (path := path) (a := y) (b := k) h2 (by simpa using hk)
+  exact this
+
+theorem mem_entries (t : Trie α) (order x : Key) : x ∈ (entries t order).map (·.1) ↔ x ∈ keysL t :=
+  mem_entriesAt order 0 t x
+
+theorem eq_path_of_short {path k : Key} (h : isPre path k = true) (hl : k.length ≤ path.length) : k = path :=
+  (((isPre_iff_prefix _ _).1 h).eq_of_length (Nat.le_antisymm (isPre_length h) hl)).symm
+
+theorem mem_subtractAt (d : Nat) (t0 : Trie α) (t1 : Trie β) (path : Key) (hd : path.length = d)
+    (h0 : WF path t0) (h1 : WF path t1) (x : Key) :
+    x ∈ (subtractAt d t0 t1).map (·.1) ↔ (x ∈ keysL t0 ∧ ∀ y ∈ keysL t1, isPre y x = false) := by
+  fun_induction subtractAt d t0 t1 generalizing path with
+  | case1 => simp [keysL]
+  | case2 d t0 hne => simp [mem_entries, keysL]
+  | case3 d k0 d0 k1 d1 hpre =>
+    simp only [List.map_cons, List.map_nil, List.mem_singleton, keysL, forall_eq]
+    constructor
+    · intro h; subst h; exact ⟨rfl, by simpa using hpre⟩
+    · intro h; exact h.1
+  | case4 d k0 d0 k1 d1 hpre =>
+    simp only [List.map_nil, List.not_mem_nil, keysL, List.mem_singleton, forall_eq, false_iff, not_and]
+    intro h; subst h; simpa using hpre
+  | case5 d k0 d0 l r hlen =>
+    subst hd
+    have hk : k0 = path := eq_path_of_short h0 hlen
+    simp only [List.map_cons, List.map_nil, List.mem_singleton, keysL, List.mem_append]
+    constructor
+    · intro hx; subst hx
+      refine ⟨rfl, ?_⟩
+      intro y hy
+      cases hyk : isPre y x with
+      | false => rfl
+      | true =>
+        exfalso
+        have hp : isPre path y = true := WF.mem_isPre (t := node l r) h1 (by simpa [keysL] using hy)
+        have hl := isPre_length hyk
+        rcases hy with hy | hy
+        · have := isPre_length (h1.1.mem_isPre hy); simp at this; rw [hk] at hl; omega
+        · have := isPre_length (h1.2.mem_isPre hy); simp at this; rw [hk] at hl; omega
+    · intro h; exact h.1
+  | case6 d k0 d0 l r hlen ih =>
+    subst hd
+    have hlt : path.length < k0.length := by omega
+    have hsn : isPre (path ++ [bitAt k0 path.length]) k0 = true := isPre_snoc_of h0 hlt
+    have ih' := ih (path ++ [bitAt k0 path.length]) (by simp) hsn
+    simp only [keysL, List.mem_singleton, List.mem_append]
+    cases hb : bitAt k0 path.length
+    · simp only [hb, Bool.false_eq_true, ↓reduceDIte, ↓reduceIte] at ih' ⊢
+      rw [ih' h1.1]
+      simp only [keysL, List.mem_singleton]
+      constructor
+      · rintro ⟨hx, h⟩; subst hx
+        refine ⟨rfl, ?_⟩
+        rintro y (hy | hy)
+        · exact h y hy
+        · rw [hb] at hsn; exact (WF.diverge (b := false) h1.2 hsn hy).2
+      · rintro ⟨hx, h⟩; exact ⟨hx, fun y hy => h y (Or.inl hy)⟩
+    · simp only [hb, ↓reduceDIte, ↓reduceIte] at ih' ⊢
+      rw [ih' h1.2]
+      simp only [keysL, List.mem_singleton]
+      constructor
+      · rintro ⟨hx, h⟩; subst hx
+        refine ⟨rfl, ?_⟩
+        rintro y (hy | hy)
+        · rw [hb] at hsn; exact (WF.diverge (b := true) h1.1 hsn hy).2
+        · exact h y hy
+      · rintro ⟨hx, h⟩; exact ⟨hx, fun y hy => h y (Or.inr hy)⟩
+  | case7 d l r k1 d1 hlen =>
+    subst hd
+    have hk : k1 = path := eq_path_of_short h1 hlen
+    simp only [List.map_nil, List.not_mem_nil, keysL, List.mem_singleton, forall_eq, false_iff, not_and,
+      Bool.not_eq_false]
+    intro hx
+    rw [hk]; exact WF.mem_isPre (t := node l r) h0 (by simpa [keysL] using hx)
+  | case8 d l r k1 d1 hlen hb ih =>
+    subst hd
+    have hlt : path.length < k1.length := by omega
+    have hsn : isPre (path ++ [true]) k1 = true := by have := isPre_snoc_of h1 hlt; rwa [hb] at this
+    have ih' := ih (path ++ [true]) (by simp) h0.2 hsn
+    simp only [List.map_append, List.mem_append, mem_entries, ih', keysL, List.mem_singleton, forall_eq]
+    constructor
+    · rintro (h | h)
+      · exact ⟨Or.inl h, (WF.diverge (b := true) h0.1 hsn h).1⟩
+      · exact ⟨Or.inr h.1, h.2⟩
+    · rintro ⟨h | h, h2⟩
+      · exact Or.inl h
+      · exact Or.inr ⟨h, h2⟩
+  | case9 d l r k1 d1 hlen hb ih =>
+    subst hd
+    have hlt : path.length < k1.length := by omega
+    have hb' : bitAt k1 path.length = false := by simpa using hb
+    have hsn : isPre (path ++ [false]) k1 = true := by have := isPre_snoc_of h1 hlt; rwa [hb'] at this
+    have ih' := ih (path ++ [false]) (by simp) h0.1 hsn
+    simp only [List.map_append, List.mem_append, mem_entries, ih', keysL, List.mem_singleton, forall_eq]
+    constructor
+    · rintro (h | h)
+      · exact ⟨Or.inr h, (WF.diverge (b := false) h0.2 hsn h).1⟩
+      · exact ⟨Or.inl h.1, h.2⟩
+    · rintro ⟨h | h, h2⟩
+      · exact Or.inr ⟨h, h2⟩
+      · exact Or.inl h
+  | case10 d l0 r0 l1 r1 ihl ihr =>
+    subst hd
+    have il := ihl (path ++ [false]) (by simp) h0.1 h1.1
+    have ir := ihr (path ++ [true]) (by simp) h0.2 h1.2
+    simp only [List.map_append, List.mem_append, il, ir, keysL]
+    constructor
+    · rintro (⟨h, h2⟩ | ⟨h, h2⟩)
+      · refine ⟨Or.inl h, ?_⟩
+        rintro y (hy | hy)
+        · exact h2 y hy
+        · exact (WF.diverge (b := false) h1.2 (h0.1.mem_isPre h) hy).2
+      · refine ⟨Or.inr h, ?_⟩
+        rintro y (hy | hy)
+        · exact (WF.diverge (b := true) h1.1 (h0.2.mem_isPre h) hy).2
+        · exact h2 y hy
+    · rintro ⟨h | h, h2⟩
+      · exact Or.inl ⟨h, fun y hy => h2 y (Or.inl hy)⟩
+      · exact Or.inr ⟨h, fun y hy => h2 y (Or.inr hy)⟩
+
+/-! ### RegionsFromPeers / AssignKeysToRegions -/
+
+def height : Trie α → Nat
+  | node l r => max l.height r.height + 1
+  | _ => 0
+
+theorem regionsAt_spec (size : Nat) (order path : Key) (t : Trie α) (hwf : WF path t) :
+    (∀ ps ∈ regionsAt size order path t, isPre path ps.1 = true ∧ WF ps.1 ps.2 ∧ ps.2 ≠ empty) ∧
+    (∀ x, x ∈ (regionsAt size order path t).flatMap (fun ps => keysL ps.2) ↔ x ∈ keysL t) := by
+  induction t generalizing path with
+  | empty => simp [regionsAt, keysL]
+  | leaf k d => simp [regionsAt, keysL, isPre_refl]; exact hwf
+  | node l r ihl ihr =>
+    simp only [regionsAt]
+    split
+    · have hl := ihl (path ++ [false]) hwf.1
+      have hr := ihr (path ++ [true]) hwf.2
+      split
+      · refine ⟨?_, ?_⟩
+        · intro ps hps
+          rcases List.mem_append.1 hps with h | h
+          · have := hr.1 ps h; exact ⟨isPre_of_snoc this.1, this.2⟩
+          · have := hl.1 ps h; exact ⟨isPre_of_snoc this.1, this.2⟩
+        · intro x; simp only [List.flatMap_append, List.mem_append, hl.2, hr.2, keysL, or_comm]
+      · refine ⟨?_, ?_⟩
+        · intro ps hps
+          rcases List.mem_append.1 hps with h | h
+          · have := hl.1 ps h; exact ⟨isPre_of_snoc this.1, this.2⟩
+          · have := hr.1 ps h; exact ⟨isPre_of_snoc this.1, this.2⟩
+        · intro x; simp only [List.flatMap_append, List.mem_append, hl.2, hr.2, keysL]
+    · simp [isPre_refl]; exact hwf
+
+/-- region prefixes are pairwise not prefix-related -/
+theorem regionsAt_pairwise (size : Nat) (order path : Key) (t : Trie α) :
+    ((regionsAt size order path t).map (·.1)).Pairwise (fun a b => isPre a b = false ∧ isPre b a = false) := by
+  have hpre : ∀ (path : Key) (t : Trie α), ∀ p ∈ (regionsAt size order path t).map (·.1), isPre path p = true := by
+    intro path t
+    induction t generalizing path with
+    | empty => simp [regionsAt]
+    | leaf k d => simp [regionsAt, isPre_refl]
+    | node l r ihl ihr =>
+      simp only [regionsAt]
+      split
+      · split <;>
+        · intro p hp
+          simp only [List.map_append, List.mem_append] at hp
+          rcases hp with h | h
+          · first | exact isPre_of_snoc (ihr _ p h) | exact isPre_of_snoc (ihl _ p h)
+          · first | exact isPre_of_snoc (ihl _ p h) | exact isPre_of_snoc (ihr _ p h)
+      · simp [isPre_refl]
+  induction t generalizing path with
+  | empty => simp [regionsAt]
+  | leaf k d => simp [regionsAt]
+  | node l r ihl ihr =>
+    simp only [regionsAt]
+    split
+    · split
+      · simp only [List.map_append, List.pairwise_append]
+        refine ⟨ihr _, ihl _, ?_⟩
+        intro a ha b hb
+        exact ⟨not_isPre_of_diverge (x := true) (hpre _ _ a ha) (hpre _ _ b hb),
+               not_isPre_of_diverge (x := false) (hpre _ _ b hb) (hpre _ _ a ha)⟩
+      · simp only [List.map_append, List.pairwise_append]
+        refine ⟨ihl _, ihr _, ?_⟩
+        intro a ha b hb
+        exact ⟨not_isPre_of_diverge (x := false) (hpre _ _ a ha) (hpre _ _ b hb),
+               not_isPre_of_diverge (x := true) (hpre _ _ b hb) (hpre _ _ a ha)⟩
+    · simp
+
+/-- every region holds at least `size` peers whenever the whole trie does -/
+theorem regionsAt_size (size : Nat) (order path : Key) (t : Trie α) (h : size ≤ t.size) :
+    ∀ ps ∈ regionsAt size order path t, size ≤ ps.2.size := by
+  induction t generalizing path with
+  | empty => simp [regionsAt]
+  | leaf k d => simp [regionsAt]; exact h
+  | node l r ihl ihr =>
+    simp only [regionsAt]
+    split <;> rename_i hc
+    · simp only [ge_iff_le, Bool.and_eq_true, decide_eq_true_eq] at hc
+      split <;>
+      · intro ps hps
+        rcases List.mem_append.1 hps with h | h
+        · first | exact ihr _ hc.2 ps h | exact ihl _ hc.1 ps h
+        · first | exact ihl _ hc.1 ps h | exact ihr _ hc.2 ps h
+    · simp; exact h
+
+/-- with `size ≥ 1` the region prefixes cover everything below `path` (for keys long enough to be
+    routed to a leaf of the trie) -/
+theorem regionsAt_cover (size : Nat) (hs : 1 ≤ size) (order path : Key) (t : Trie α) (hne : t ≠ empty)
+    (h : Key) (hp : isPre path h = true) (hlen : path.length + t.height ≤ h.length) :
+    ∃ p ∈ (regionsAt size order path t).map (·.1), isPre p h = true := by
+  induction t generalizing path with
+  | empty => exact absurd rfl hne
+  | leaf k d => simp [regionsAt, hp]
+  | node l r ihl ihr =>
+    simp only [regionsAt]
+    split <;> rename_i hc
+    · simp only [ge_iff_le, Bool.and_eq_true, decide_eq_true_eq] at hc
+      have hl : l ≠ empty := by intro h; subst h; simp [Trie.size] at hc; omega
+      have hr : r ≠ empty := by intro h; subst h; simp [Trie.size] at hc; omega
+      simp only [height] at hlen
+      have hlt : path.length < h.length := by omega
+      have hsn := isPre_snoc_of hp hlt
+      have : ∃ p ∈ (regionsAt size order (path ++ [false]) l).map (·.1) ++ (regionsAt size order (path ++ [true]) r).map (·.1),
+          isPre p h = true := by
+        cases hb : bitAt h path.length
+        · rw [hb] at hsn
+          obtain ⟨p, hp1, hp2⟩ := ihl (path ++ [false]) hl hsn (by simp; omega)
+          exact ⟨p, List.mem_append_left _ hp1, hp2⟩
+        · rw [hb] at hsn
+          obtain ⟨p, hp1, hp2⟩ := ihr (path ++ [true]) hr hsn (by simp; omega)
+          exact ⟨p, List.mem_append_right _ hp1, hp2⟩
+      obtain ⟨p, hp1, hp2⟩ := this
+      split
+      · refine ⟨p, ?_, hp2⟩
+        simp only [List.map_append, List.mem_append] at hp1 ⊢; exact hp1.symm
+      · refine ⟨p, ?_, hp2⟩
+        simp only [List.map_append, List.mem_append] at hp1 ⊢; exact hp1
+    · simp [hp]
+
 end Trie
+
+/-- a key matching some region prefix is assigned to a region whose prefix it matches; by
+    `regionsAt_pairwise` that region is unique. -/
+theorem assignKey_matches (ps : List Key) (h p : Key) (hp : p ∈ ps) (hm : isPre p h = true) :
+    assignKey ps h ∈ ps ∧ isPre (assignKey ps h) h = true := by
+  unfold assignKey
+  cases hf : ps.find? (fun p => isPre p h) with
+  | some q => exact ⟨List.mem_of_find?_eq_some hf, by simpa using List.find?_some hf⟩
+  | none => simp [List.find?_eq_none] at hf; have := hf p hp; simp [hm] at this
+
+theorem pairwise_sym_ne {α : Type} {R : α → α → Prop} (hs : ∀ a b, R a b → R b a) {l : List α}
+    (hl : l.Pairwise R) {a b : α} (ha : a ∈ l) (hb : b ∈ l) (hne : a ≠ b) : R a b := by
+  induction hl with
+  | nil => simp at ha
+  | cons hx _ ih =>
+    rcases List.mem_cons.1 ha with rfl | ha' <;> rcases List.mem_cons.1 hb with rfl | hb'
+    · exact absurd rfl hne
+    · exact hx _ hb'
+    · exact hs _ _ (hx _ ha')
+    · exact ih ha' hb'
+
+theorem assignKey_unique (ps : List Key) (h p : Key) (hp : p ∈ ps) (hm : isPre p h = true)
+    (hpw : ps.Pairwise (fun a b => isPre a b = false ∧ isPre b a = false)) : assignKey ps h = p := by
+  obtain ⟨h1, h2⟩ := assignKey_matches ps h p hp hm
+  by_cases hne : assignKey ps h = p
+  · exact hne
+  · have h3 := pairwise_sym_ne (R := fun a b => isPre a b = false ∧ isPre b a = false)
+      (fun a b h => ⟨h.2, h.1⟩) hpw h1 hp hne
+    rcases isPre_total h2 hm with h4 | h4
+    · simp [h4] at h3
+    · simp [h4] at h3
+
+
 end KadDHT
